@@ -13,6 +13,9 @@
 // Statements are translated by continuation: `if c {A}; rest` becomes
 // `if c then [[A; rest]] else [[rest]]`.
 //
+// Byte slices, fixed-width unsigned integers, panics and typed constants are handled by a second translator in wsfext.go
+// (modules whose spec entry has a `sources` list); pointer parameters, bit types and oracles by polext.go.
+//
 // Anything outside this subset makes the tool exit non-zero with "untranslatable: ...", which the
 // orchestrator reports as a broken obligation (never skipped).
 package main
@@ -59,6 +62,9 @@ type ModuleSpec struct {
 	Externs   []string          `json:"externs"`   // receiver methods that are NOT translated: each call takes its result from the oracle
 	Opaque    []string          `json:"opaque"`    // plain functions f(x, ...) represented by their first argument (only inside extern arguments)
 	Isolated  bool              `json:"isolated"`  // an untranslatable construct makes THIS module's file a non-compiling stub instead of failing the whole run
+
+	// Byte-slice / fixed-width code (see wsfext.go): when present, the module is translated by wsfGenModule.
+	Sources []WsfSourceSpec `json:"sources"`
 }
 
 type Spec struct {
@@ -822,7 +828,13 @@ func main() {
 		genAccess(root, out, as)
 	}
 	for _, ms := range spec.Modules {
-		polGuarded(ms, out, func() { genModule(root, out, ms) })
+		polGuarded(ms, out, func() {
+			if len(ms.Sources) > 0 {
+				wsfGenModule(root, out, ms)
+			} else {
+				genModule(root, out, ms)
+			}
+		})
 	}
 }
 
